@@ -15,6 +15,7 @@ type LineBP struct {
 	Tag   string `json:"t,omitempty"`
 	Value Str    `json:"v,omitempty"` // raw, may carry leading/trailing blanks
 	Gap   int    `json:"g,omitempty"` // extra spaces after the level
+	Zeros int    `json:"z,omitempty"` // leading zeros written before the level ("08" is level 8)
 	Raw   Str    `json:"raw,omitempty"`
 	IsRaw bool   `json:"israw,omitempty"` // emit Raw verbatim (continuation / unparsable line)
 	Term  string `json:"e"`               // terminator bytes after the line
@@ -36,7 +37,7 @@ func (l LineBP) Render() string {
 	if l.IsRaw {
 		return string(l.Raw)
 	}
-	s := fmt.Sprintf("%d", l.Level) + strings.Repeat(" ", 1+l.Gap)
+	s := strings.Repeat("0", l.Zeros) + fmt.Sprintf("%d", l.Level) + strings.Repeat(" ", 1+l.Gap)
 	if l.Xref != "" {
 		s += "@" + string(l.Xref) + "@ "
 	}
@@ -210,6 +211,9 @@ func Text(o TextOpts) *rapid.Generator[*TextBP] {
 			}
 			if rapid.IntRange(0, 5).Draw(t, "gap") == 0 {
 				l.Gap = rapid.IntRange(1, 3).Draw(t, "gapn")
+			}
+			if rapid.IntRange(0, 19).Draw(t, "zeros") == 0 {
+				l.Zeros = rapid.IntRange(1, 3).Draw(t, "nzeros")
 			}
 			depth = l.Level
 			tb.Lines = append(tb.Lines, l)
